@@ -270,6 +270,24 @@ let eval (kind : ostring) (ins : ostring list) : ostring list =
     [if c08_print_after_parse l then "Ok" else "Err"]
   | "md_assign", [ids] -> [match c17_assign (ints_of ids) with Some r -> "Ok " ^ of_ints r | None -> "Err"]
   | "skeleton", [tops] -> [sk_outcome (sk_translate (List.map sk_top (sk_split ';' tops)))]
+  | "history", [init; ops] ->
+    let item_of t = match Stdlib.String.split_on_char ':' t with
+      | [n; id; v; obj] -> (mk_item (n = "1") (z_of_dec id) (v = "1"), obj = "1") | _ -> failwith "item" in
+    let init_items = if init = "" then [] else List.map item_of (Stdlib.String.split_on_char ',' init) in
+    (* the obj flags travel beside the model's list, edited the same way *)
+    let objs = ref (List.map snd init_items) in
+    let rec ins n x l = match n, l with 0, _ -> x :: l | _, y :: r -> y :: ins (n-1) x r | _, [] -> [x] in
+    let rec rem n l = match n, l with _, [] -> [] | 0, _ :: r -> r | _, y :: r -> y :: rem (n-1) r in
+    let op_of t = match Stdlib.String.split_on_char ':' t with
+      | ["I"; p; n; v; obj] -> objs := ins (int_of_string p) (obj = "1") !objs;
+                               h_insert (nat_of_int (int_of_string p)) (mk_item (n = "1") Z0 (v = "1"))
+      | ["R"; p] -> objs := rem (int_of_string p) !objs; h_remove (nat_of_int (int_of_string p))
+      | ["N"; p; n] -> h_rename (nat_of_int (int_of_string p)) (n = "1")
+      | ["P"] -> h_print | ["Q"] -> h_query | _ -> failwith "op" in
+    let h = if ops = "" then [] else List.map op_of (Stdlib.String.split_on_char ',' ops) in
+    [match c14_final h (List.map fst init_items) with
+     | None -> "Panic"
+     | Some r -> "Ok " ^ Stdlib.String.concat "," (List.map2 (fun it obj -> if (it_named it && obj) || not obj then "-" else dec_of_z (it_id it)) r !objs)]
   | _ -> failwith ("unknown kind " ^ kind)
 
 let () =
